@@ -180,12 +180,26 @@ Definition step1 (c : cfg) (m : cache) (o : op1) : cache * res outv :=
   | Items => (m, Ok (OItems (store m)))
   | EqDict d => (m, Ok (OBool (cache_eq m d)))
   | NeDict d => (m, Ok (OBool (negb (cache_eq m d))))
+  | UpdateSelf f =>
+      (* `if E is self: pass`, then `for k in F: setitem(k, F[k])` *)
+      lift (fun _ => ONone) (setitems c m f)
+  | EqOther =>
+      (* not `self is other`; dict.__eq__ returns NotImplemented, so does the reflected
+         comparison, and Python falls back to identity: False *)
+      (m, Ok (OBool false))
+  | NeOther => (m, Ok (OBool true))
   end.
 
 (* LRI.copy(): a new cache with the same max_size and on_miss, every link of the
    list re-inserted oldest first through __setitem__ *)
 Definition copy_cache (c : cfg) (m : cache) : cache * res unit :=
   setitems c empty_cache (ring m).
+
+(* __init__: `if max_size <= 0: raise ValueError`, then
+   `if on_miss is not None and not callable(on_miss): raise TypeError` *)
+Definition ctor_outcome (max : nat) (on_miss_ok : bool) : option exn :=
+  if (max <=? 0)%nat then Some ValueError
+  else if negb on_miss_ok then Some TypeError else None.
 
 (* __init__(max_size, values, on_miss): `if values: self.update(values)` *)
 Definition init_cache (c : cfg) (init : list (K * V)) : cache * res unit :=
